@@ -32,7 +32,7 @@ Open Scope N_scope.
    Everything workceptor persists about unit u lives in five places below {datadir}/{node}/u.
    The model of a unit works on this record; [project] reads it off the general file system of
    Model/Fs.v and [fsop_of] gives the file-system operation each step stands for
-   (Proofs/Crash.v: [project_apply] — the two agree; [fsop_frame] — nothing else is touched). *)
+   (Proofs/Fs.v: [project_apply] — the two agree; [fsop_frame] — nothing else is touched). *)
 Definition unitp (u : N) : path := [u].
 Inductive ufile := FStatus | FLock | FStdin | FStdout.
 Definition ufile_id (f : ufile) : N :=
@@ -184,7 +184,11 @@ Record scenario := mkSc {
   sc_chunks : list bytes;                 (* the writes of the command, a status tick after each *)
   sc_ok : bool;                           (* exit status of the command *)
   sc_pid : N;
-  sc_types : list bytes                   (* work types configured on the node *)
+  sc_types : list bytes;                  (* work types configured on the node *)
+  sc_follow : bool                        (* the daemon's MonitorLocalStatus keeps up with the runner's
+                                             rewrites (it reloads on fsnotify events and once a second; a
+                                             reload that meets the file between truncation and rewrite fails
+                                             and keeps the old copy, so the copy may also lag) *)
 }.
 
 Definition sc_output (sc : scenario) : bytes := concat (sc_chunks sc).
@@ -280,7 +284,7 @@ Definition r_next (sc : scenario) (g : gstate) : option (list mstep) :=
   else if is_remote sc then (if g_dalive g then nth_error (r_prog sc) (g_rn g) else None)
   else if g_ralive g then nth_error (r_prog sc) (g_rn g) else None.
 
-(* the daemon's copy follows the file: MonitorLocalStatus reloads after every rewrite *)
+(* the daemon's copy follows the file when MonitorLocalStatus keeps up ([sc_follow]) *)
 Definition follow (x : ufiles) (mem : status) : status :=
   match status_content x with
   | Some c => match parse c with Some s => s | None => mem end
@@ -305,7 +309,7 @@ Definition gstep (sc : scenario) (g : gstate) (who : bool) : gstate :=
         mkG (p_fs p) (p_mem p) (g_rmem g) (g_dn g) (S (g_rn g)) (g_dalive g) (g_ralive g)
       else
         let p := exec_steps (mkP (g_fs g) (g_rmem g) false) op in
-        mkG (p_fs p) (if g_dalive g then follow (p_fs p) (g_dmem g) else g_dmem g) (p_mem p)
+        mkG (p_fs p) (if g_dalive g && sc_follow sc then follow (p_fs p) (g_dmem g) else g_dmem g) (p_mem p)
             (g_dn g) (S (g_rn g)) (g_dalive g) (g_ralive g)
     end.
 
